@@ -433,6 +433,14 @@ def f_nesting_bomb(rng, img, ctx):
                 hl = min(ctx.objmap)  # the header length of this file's version
             bomb, extra = _ref_bomb(rng, 0, shape, plain)
             out = img[:hl] + bomb
+            if shape in ("ref_dag_leaf", "eq_collide") and hl == 16 and len(img) >= 2 and \
+                    struct.unpack("<H", img[:2])[0] in (3413, 3425, 3439, 3495, 3531, 3571) and rng.chance(3, 4):
+                # a file of an installed interpreter's own version goes to CPython's marshal on that host, where these
+                # two shapes burn the whole CPU budget (the known finding D13c) and teach nothing about xdis: three
+                # times in four the file claims to be 3.7 instead (same header layout), so every host uses xdis's own
+                # unmarshaller
+                out = struct.pack("<H", 3394) + out[2:]
+                extra["magic_rewritten"] = 3394
             extra.update({"whole_payload": True, "header_len": hl})
             d = {"kind": "nesting_bomb", "at": hl, "depth": extra["levels"], "shape": shape, "keep_tail": False}
             d.update(extra)
